@@ -10,12 +10,19 @@ C03 — line-protocol driver of the replace-protocol model (core only).
         → rec files=<e,…> init=<k> log=<none|torn|full>
         the disk a start-up pass leaves when it finds this disk
 
+  mcrash files=<e,…> logs=<logname>=<log>;<logname>=<log>;…
+        → rec files=<e,…> init=<k> logs=<logname>:<torn|full>,…
+        the same for a shard with several compact logs (several reorganisations in flight): the
+        start-up loop over the log directory in the order of the log-file names, a dirty log
+        skipped or ending the loop as the regenerated loop shape says; entry names carry their
+        measurement (`o/<mst>/<file>`), the names inside a log too
+
 Entries are `o/<name>` (measurement directory) or `u/<name>` (out-of-order sub-directory);
 a name ending in the regenerated `.init` suffix is a temporary entry.  `files=` of a reorg line
 lists the data files before the reorganisation in the order the shard keeps them (ascending
 sequence): ordered files first, then out-of-order files.
 -/
-import OG.C03.Model
+import OG.C03.Multi
 
 namespace OG.C03
 
@@ -112,6 +119,27 @@ def step (line : String) : String :=
         "rec files=" ++ String.intercalate "," (sortDedup (d'.visible.map showEnt))
           ++ " init=" ++ toString (sortDedup ((d'.files.filter (·.tmp)).map showEnt)).length
           ++ " log=" ++ showLog d'.log
+      | _, _ => "bad-op"
+    | _, _ => "bad-op"
+  | "mcrash" :: rest =>
+    match kvOf rest "files", kvOf rest "logs" with
+    | some files, some lgs =>
+      let parts := (if lgs == "" then [] else lgs.splitOn ";").map fun p =>
+        match p.splitOn "=" with
+        | [nm, l] => (parseLog l).bind fun lg => if nm == "" || lg.isNone then none else some (nm, lg)
+        | _ => none
+      match (splitList files).mapM parseEnt, parts.mapM id with
+      | some fs, some ls =>
+        -- the listing of the log directory: by file name
+        let sorted := (ls.toArray.qsort (fun a b => a.1 < b.1)).toList
+        if (sorted.map (·.1)) != sortDedup (ls.map (·.1)) then "bad-op"   -- a name twice
+        else
+          let names := sorted.map (·.1)
+          let d : MDisk String := ⟨fs, sorted.zipIdx.map fun (p, i) => (i, p.2)⟩
+          let d' := mrecoverWithCrashes OG.Gen.C03.dirtyLogSkipped OG.Gen.C03.processLogHonoursIsOrder d []
+          "rec files=" ++ String.intercalate "," (sortDedup (d'.visible.map showEnt))
+            ++ " init=" ++ toString (sortDedup ((d'.files.filter (·.tmp)).map showEnt)).length
+            ++ " logs=" ++ String.intercalate "," (d'.logs.map fun (i, l) => names.getD i "?" ++ ":" ++ showLog l)
       | _, _ => "bad-op"
     | _, _ => "bad-op"
   | _ => "bad-op"
